@@ -254,7 +254,7 @@ class DictOf(PSpec):
         kj = ex.subst(st, k, i, j)
         # keys of a dict are pairwise distinct
         st.assume(z3.ForAll([i, j], z3.Implies(z3.And(i >= 0, i < n, j >= 0, j < n, k.t == kj.t), i == j)))
-        return ex.alloc(st, DictObj([], L.LT([L.MapSeg(i, n, L.LT([L.Unit(Tup([k, v]))]), name)])))
+        return ex.alloc(st, DictObj([], L.LT([L.MapSeg(i, n, L.LT([L.Unit(Tup([k, v]))]), name)]), distinct_keys=True))
 
 
 def indexed(name: str, i, sort=None):
